@@ -164,10 +164,15 @@ def handle (st : St) (fam : String) (rhs : String) : P Out := do
       | .ok r => r.buf
       | .error _ => buf0   -- the harness resets the buffer after a failed stale search
     let m := findN buf1 y mo d h mi s ns st.zone
+    let ents (b : List (Option Found)) : String := b.foldl (fun acc e => acc ++ " " ++ showBufEntry e) ""
     let sh (r : RefMut) : String :=
-      let bufS := r.buf.foldl (fun acc e => acc ++ " " ++ showBufEntry e) ""
-      s!"{r.count} {if r.isExhaustive then 1 else 0} {r.data.length} B{bufS} U {showOptDt r.unique} E {showOptDt r.earliest} X {showOptDt r.latest}"
-    pure { model := showTz sh m, oracles := Spec.findnOracles st.zone n (y, mo, d, h, mi, s, ns) (y', mo', d', h', mi', s', ns') rhsToks }
+      s!"{r.count} {if r.isExhaustive then 1 else 0} {r.data.length} B{ents r.buf} U {showOptDt r.unique} E {showOptDt r.earliest} X {showOptDt r.latest}"
+    -- companion answers (allocating search, buffer after the stale search) as the model computes them
+    let shF (l : List Found) : String :=
+      s!"{showFoundList l} U {showOptDt (listUnique l)} E {showOptDt (listEarliest l)} X {showOptDt (listLatest l)}"
+    let fAns := showTz shF (findDateTime y mo d h mi s ns st.zone)
+    pure { model := s!"{showTz sh m} ## F {fAns} ## S{ents buf1}",
+           oracles := Spec.findnOracles st.zone n (y, mo, d, h, mi, s, ns) (y', mo', d', h', mi', s', ns') rhsToks }
   | "tzif" =>
     let b ← bytes
     let m := parseTzFile b
